@@ -86,7 +86,7 @@ def run(tier, seed):
         calls = [{"fn": "two_step_%s_str" % fam, "path": "t.sv", "text": text},
                  {"fn": "two_step_%s_str" % fam, "path": "t.sv", "text": text, "allow_incomplete": True, "probe_nodes": 3}]
         if kind == "sv":
-            junk = junk + (JUNK2 if not quick else [JUNK2[(i + d) % len(JUNK2)] for d in (0, 5, 11)])
+            junk = junk + [JUNK2[(i + d) % len(JUNK2)] for d in ((0, 5, 11) if quick else (0, 2, 4, 5, 8, 11, 13, 15, 16))]
         for j in junk:
             calls.append({"fn": "two_step_%s_str" % fam, "path": "t.sv", "text": text + j, "allow_incomplete": True})
         hcases.append({"id": i, "calls": calls, "fresh_each": True})
